@@ -378,6 +378,14 @@ def _run_waves(case):
     else:
         ok, det = False, f"shape {arr.shape} != {ens + new}"
     out.append(Res("C15/Waves.downsample/bandlimited-coefficients", ok, f"{tag}: {det}", nt))
+    if okshape and case["mode"] == "cutoff":
+        # a wave that has been down-sampled to its band limit already: doing it again keeps the grid and the content
+        again = call(res)
+        again = again.compute(scheduler="synchronous") if getattr(again, "is_lazy", False) else again
+        arr2 = np.asarray(again.array)
+        same_grid = tuple(int(n) for n in again.gpts) == new and arr2.shape == arr.shape
+        ok2, det2 = rel_close(arr2, arr, 1e-4) if same_grid else (False, f"grid {tuple(again.gpts)} after the second call, {new} after the first")
+        out.append(Res("C15/Waves.downsample/second-call-keeps-grid-and-content", ok2, f"{tag}: {det2}", nt))
     e_new = tuple(res.extent)
     ok = all(abs(a - b_) <= 1e-6 * abs(b_) for a, b_ in zip(e_new, ext))
     out.append(Res("C15/Waves.downsample/extent", ok, f"{tag}: extent {e_new} vs {ext}", True))
